@@ -52,6 +52,9 @@ func relPkg(path string) string {
 
 // scopeExcluded: packages that are loaded (must type-check) but are not rule scope.
 func scopeExcluded(rel string) bool {
+	if strings.HasPrefix(rel, "bandcheck/testdata/") {
+		return false
+	}
 	for _, s := range []string{"testutil", "testing", "simulation", "client/cli", "benchmark", "/mocks", "/testdata"} {
 		if strings.Contains(rel, s) {
 			return true
@@ -325,6 +328,9 @@ func inRepoScope(fn *ssa.Function) bool {
 		path = o.Pkg().Path()
 	} else {
 		return false
+	}
+	if strings.HasPrefix(path, "bandcheck/testdata/") {
+		return true
 	}
 	if !strings.HasPrefix(path, modPrefix) && path+"/" != modPrefix {
 		return false
